@@ -1269,6 +1269,22 @@ func (e *authEngine) Step(ws []string, o *Out) string {
 				if res.tenant != r.tenant {
 					o.Fail("C10", "tenant", "token tenant "+Hx(res.tenant)+" header "+Hx(r.tenant))
 				}
+				// C16: the expiry the route handlers derive the connection deadline from is the token's
+				// `exp`, unless disconnect-on-expiry is disabled for the verifier that accepted it
+				owner := ""
+				if len(e.ten) > 0 {
+					owner = r.tenant
+				}
+				if c := e.cfgs[owner]; c != nil {
+					o.Count("oracle:C16:expiry")
+					want := "none"
+					if t.exp != nil && !c.ddoe {
+						want = strconv.FormatInt(*t.exp, 10)
+					}
+					if res.exp != want {
+						o.Fail("C16", "token-expiry-lost", fmt.Sprintf("handler saw expiry %s, token exp %s (disconnect-on-expiry disabled=%v): %s", res.exp, want, c.ddoe, strings.Join(ws, " ")))
+					}
+				}
 			}
 		} else {
 			o.Count("req:reject:" + us(res.reason))
